@@ -266,8 +266,19 @@ def all_obligations():
                   'stopped and its canonical position, independent of block boundaries',
              functions=['attach', 'detach', 'can_attach'], flags=['--unwind', '4', '--unwinding-assertions'], assumed=MONX,
              expect=['detach: the absolute bit position is exactly', 'detach: pos is the canonical position'], timeout=900))
+    XB2 = []
     for fn, entry, pr, what, exp, can in XB:
-        A(Ob(name='expand.' + fn, props=pr, kind='bounded', bound='queue lengths of input_q, retr_q, scan_q, unord_q <= 2 (the code loops over them); worker count, offsets, positions, block contents and all callee results symbolic',
+        if fn != 'do_parse':
+            XB2.append((fn, fn, entry, pr, what, exp, can, {}))
+            continue
+        for rvn in ('MORE', 'FINISH', 'OK', 'ERR_HEADER', 'ERR_STRMCRC', 'ERR_EOF'):
+            d = {'DP_RV': rvn, 'DP_RV_MORE': '0', 'DP_RV_FINISH': '0', 'DP_RV_OK': '0'}
+            if 'DP_RV_' + rvn in d:
+                d['DP_RV_' + rvn] = '1'
+            e = {'MORE': [], 'FINISH': [exp[1]], 'OK': [exp[2]]}.get(rvn, [exp[0]])
+            XB2.append(('do_parse.' + rvn, fn, entry, pr, what + f' [instance: parse() returns {rvn}]', e, can if rvn.startswith('ERR') or rvn == 'FINISH' else [], d))
+    for oname, fn, entry, pr, what, exp, can, defs in XB2:
+        A(Ob(name='expand.' + oname, defines=defs, props=pr, kind='bounded', bound='queue lengths of input_q, retr_q, scan_q, unord_q <= 2 (the code loops over them); worker count, offsets, positions, block contents and all callee results symbolic',
              harness='h_expand.c', entry=entry, what=what, functions=[fn, 'attach', 'detach', 'advance', 'can_attach'],
              flags=['--unwind', '4', '--unwinding-assertions'], assumed=MONX, expect=exp + ['monitor invariant I_x holds'], canaries=can, timeout=1200,
              ignore=NULLDIFF))
